@@ -849,3 +849,40 @@ Proof.
   intros Hv Hi Hm. apply traceql_planner_value_independent; [|exact Hm].
   exact (selector_variant_of_shape phi {| sel_attr := Some e; sel_agg := ag |} {| sel_attr := Some e'; sel_agg := ag |} e e' eq_refl eq_refl Hv Hi eq_refl).
 Qed.
+
+(* ---------- all three entry points, any number of selectors ---------- *)
+Lemma script_variant_tail q q' : script_variant q q' ->
+  match sc_tail q, sc_tail q' with None, None => True | Some _, Some _ => True | _, _ => False end.
+Proof. destruct q as [h ao tl]; destruct q' as [h' ao' tl']. intros [_ [_ Htl]]. cbn [sc_tail]. destruct tl, tl'; try contradiction; exact I. Qed.
+
+Lemma plan_variant q q' m m' c n : script_variant q q' -> mode_variant m m' -> res_rel ssame (plan q m c n) (plan q' m' c n).
+Proof.
+  intros Hv Hm. destruct m as [| |k]; destruct m' as [| |k']; try contradiction.
+  - cbn [plan]. apply plan_search_variant. exact Hv.
+  - pose proof (script_variant_tail q q' Hv) as Ht.
+    destruct q as [h ao tl]; destruct q' as [h' ao' tl']. cbn [sc_tail] in Ht.
+    destruct tl as [t|]; destruct tl' as [t'|]; try contradiction; [reflexivity|].
+    destruct Hv as [Hh _]. exact (E_plan c h h' ao ao' MTags MTags n Hh I).
+  - pose proof (script_variant_tail q q' Hv) as Ht.
+    destruct q as [h ao tl]; destruct q' as [h' ao' tl']. cbn [sc_tail] in Ht.
+    destruct tl as [t|]; destruct tl' as [t'|]; try contradiction; [reflexivity|].
+    destruct Hv as [Hh _]. exact (E_plan c h h' ao ao' (MValues k) (MValues k') n Hh I).
+Qed.
+
+Lemma traceql_planners_value_independent q q' m m' c n : script_variant q q' -> mode_variant m m' ->
+  match plan q m c n, plan q' m' c n with
+  | Ok s, Ok s' =>
+      pok QN (tq_pieces s) = true ->
+      pok QN (tq_pieces s') = true /\ shape (tq_pieces s') = shape (tq_pieces s) /\
+      skeleton (lex (TqSql.render s')) = skeleton (lex (TqSql.render s)) /\
+      lex (TqSql.render s') = etoks QN (tq_pieces s') /\
+      List.length (rvalues (tq_pieces s')) = List.length (rvalues (tq_pieces s))
+  | Err e, Err e' => e = e'
+  | Panic, Panic => True
+  | _, _ => False
+  end.
+Proof.
+  intros Hv Hm. pose proof (plan_variant q q' m m' c n Hv Hm) as H.
+  destruct (plan q m c n) as [s| |]; destruct (plan q' m' c n) as [s'| |]; cbn [res_rel] in H; try contradiction; try assumption; try exact I.
+  intro Hok. exact (tq_erased_equal_same_structure s s' H Hok).
+Qed.
